@@ -919,6 +919,9 @@ class CallsMixin(ExecBase):
                 o = self.as_val(args[0], st, node)
                 if o.tag == "st":
                     return Val("st", z3.SetUnion(s, o.e)), VNone
+                if o.tag in ("l", "any"):
+                    l_ = self.need(o, "l", st, node)
+                    return Val("st", z3.SetUnion(s, self.sset_of_list(l_, st))), VNone
             if name == "clear":
                 return Val("st", EMPTY_SET), VNone
         self.oos(f"mutator {kind}.{name}", node)
@@ -1215,11 +1218,11 @@ class CallsMixin(ExecBase):
         i, j = z3.Const("i!ks", IntS), z3.Const("j!ks", IntS)
         k = z3.Const("k!ks", StrS)
         n = z3.Length(ks)
-        st.assume(z3.ForAll([i], z3.Implies(z3.And(i >= 0, i < n), z3.And(recog("s")(ks[i]), z3.Select(d.e, acc("s")(ks[i])) != ABSENT))))
-        st.assume(z3.ForAll([k], z3.Implies(z3.Select(d.e, k) != ABSENT, z3.Contains(ks, z3.Unit(ctor("s")(k))))))
-        st.assume(z3.ForAll([i, j], z3.Implies(z3.And(i >= 0, i < j, j < n), ks[i] != ks[j])))
+        self.axiom(z3.ForAll([i], z3.Implies(z3.And(i >= 0, i < n), z3.And(recog("s")(ks[i]), z3.Select(d.e, acc("s")(ks[i])) != ABSENT))))
+        self.axiom(z3.ForAll([k], z3.Implies(z3.Select(d.e, k) != ABSENT, z3.Contains(ks, z3.Unit(ctor("s")(k))))))
+        self.axiom(z3.ForAll([i, j], z3.Implies(z3.And(i >= 0, i < j, j < n), ks[i] != ks[j])))
         idx = z3.IndexOf(ks, z3.Unit(ctor("s")(k)), 0)
-        st.assume(z3.ForAll([k], z3.Implies(z3.Select(d.e, k) != ABSENT, z3.And(0 <= idx, idx < n, ks[idx] == ctor("s")(k)))))
+        self.axiom(z3.ForAll([k], z3.Implies(z3.Select(d.e, k) != ABSENT, z3.And(0 <= idx, idx < n, ks[idx] == ctor("s")(k)))))
         return ks
 
     def set_seq(self, s: Val, st, ordered=False):
@@ -1230,13 +1233,22 @@ class CallsMixin(ExecBase):
         i, j = z3.Const("i!ss", IntS), z3.Const("j!ss", IntS)
         k = z3.Const("k!ss", StrS)
         n = z3.Length(ks)
-        st.assume(z3.ForAll([i], z3.Implies(z3.And(i >= 0, i < n), z3.And(recog("s")(ks[i]), z3.Select(s.e, acc("s")(ks[i]))))))
-        st.assume(z3.ForAll([k], z3.Implies(z3.Select(s.e, k), z3.Contains(ks, z3.Unit(ctor("s")(k))))))
+        self.axiom(z3.ForAll([i], z3.Implies(z3.And(i >= 0, i < n), z3.And(recog("s")(ks[i]), z3.Select(s.e, acc("s")(ks[i]))))))
+        self.axiom(z3.ForAll([k], z3.Implies(z3.Select(s.e, k), z3.Contains(ks, z3.Unit(ctor("s")(k))))))
         if ordered:
-            st.assume(z3.ForAll([i, j], z3.Implies(z3.And(i >= 0, i < j, j < n), acc("s")(ks[i]) < acc("s")(ks[j]))))
+            self.axiom(z3.ForAll([i, j], z3.Implies(z3.And(i >= 0, i < j, j < n), acc("s")(ks[i]) < acc("s")(ks[j]))))
         else:
-            st.assume(z3.ForAll([i, j], z3.Implies(z3.And(i >= 0, i < j, j < n), ks[i] != ks[j])))
+            self.axiom(z3.ForAll([i, j], z3.Implies(z3.And(i >= 0, i < j, j < n), ks[i] != ks[j])))
         return ks
+
+    def sset_of_list(self, l, st):
+        """the set of the strings of a list: uninterpreted, with its defining membership axiom and sset([]) = {}"""
+        f = z3.Function("py.sset_of_list", ListS, SetS)
+        r = f(l)
+        k = z3.Const("k!sl", StrS)
+        self.axiom(z3.Implies(z3.Length(l) == 0, r == EMPTY_SET))
+        self.axiom(z3.ForAll([k], z3.Select(r, k) == z3.Contains(l, z3.Unit(ctor("s")(k)))))
+        return r
 
     def b_set(self, args, kwargs, st, node):
         if not args:
@@ -1251,8 +1263,11 @@ class CallsMixin(ExecBase):
         if v.tag == "st":
             return st.new(Cell("set", val=v))
         if v.tag == "l":
-            k = z3.Const("k!ls", StrS)
-            return st.new(Cell("set", val=Val("st", z3.Lambda([k], z3.Contains(v.e, z3.Unit(ctor("s")(k)))))))
+            return st.new(Cell("set", val=Val("st", self.sset_of_list(v.e, st))))
+        if v.tag == "any":
+            # set(x) of a dynamically typed iterable: a list of strings is the case that occurs (e.g. a `required` array)
+            self.may_raise(st, z3.Not(recog("l")(v.e)), Exc("TypeError", origin="set() of non-list"), node)
+            return st.new(Cell("set", val=Val("st", self.sset_of_list(acc("l")(v.e), st))))
         if v.tag == "d":
             k = z3.Const("k!ds", StrS)
             return st.new(Cell("set", val=Val("st", z3.Lambda([k], z3.Select(v.e, k) != ABSENT))))
